@@ -324,7 +324,7 @@ _simple("Pipeline", _pipeline,
 def _st_conv(tier):
     @st.composite
     def s(draw):
-        ratio = draw(st.sampled_from([1, 2, 2, 3, 4, 4, 8]))
+        ratio = draw(st.sampled_from([1, 2, 2, 3, 4, 4, 5, 6, 8]))
         nb = draw(st.integers(1, 8 if ratio <= 4 else 4))
         up = draw(st.booleans())
         return {"from": nb if up else nb * ratio, "to": nb * ratio if up else nb, "ratio": ratio, "up": up,
@@ -355,7 +355,7 @@ _reg(Elem("Converter", _st_conv,
 def _st_stride(tier):
     @st.composite
     def s(draw):
-        ratio = draw(st.sampled_from([1, 2, 2, 3, 4]))
+        ratio = draw(st.sampled_from([1, 2, 2, 3, 4, 6, 8]))
         nf = draw(st.integers(1, 3))
         base = [[PNAMES[i], draw(st.integers(1, 5))] for i in range(nf)]
         nq = draw(st.integers(0, 2))
@@ -402,7 +402,7 @@ _reg(Elem("StrideConverter", _st_stride, _stride_build, _stride_widths, _stride_
 def _st_pack(tier):
     @st.composite
     def s(draw):
-        return {"lay": draw(st_layout(max_fields=2, max_w=6)), "n": draw(st.integers(2, 4)), "reverse": draw(st.booleans())}
+        return {"lay": draw(st_layout(max_fields=2, max_w=6)), "n": draw(st.sampled_from([2, 2, 3, 3, 4, 5, 6, 7, 8])), "reverse": draw(st.booleans())}
     return s()
 
 
